@@ -376,6 +376,16 @@ def c12(tier):
     cfg = write_cfg("MC_C12", {"W": 3, "H": 2, "Alphabet": tla_set([32, 45, 124, 43, 46, 96, 95])},
                     ["ModelC12", "ModelC09"])
     run.model("MC_Doc", cfg)
+    # one test per transition of the glyph tables: every modelled character with at most K neighbours
+    modelled = [45, 126, 124, 58, 33, 43, 46, 39, 44, 96, 95, 61, 47, 92, 40, 41]
+    cfgn = write_cfg("MC_Nbhd", {"K": 1 if tier == "quick" else 2, "Centres": tla_set(modelled), "Around": tla_set(modelled)},
+                     ["ModelC09", "ModelC05", "ModelC12", "Emit"])
+    resn = run.model("MC_Nbhd", cfgn, timeout=5000)
+    nb = replay_models(run, [resn], ["C12", "C12x", "C09", "C05s"])
+    run.notes["neighbourhood_grids"] = nb
+    run.validate()
+    from . import stages
+    stages.conformance(run, [rows_text(b["rows"]) for b in common.tla_json_strings(resn["lines"], "REPLAY")][:4000 if tier == "quick" else 150000])
     corpus = [t for t in gen.mixed_corpus(r, n)]
     extra = []
     for i in range(n // 6):
